@@ -81,6 +81,12 @@ def redact_claims(claims: Mapping[str, object]) -> dict[str, object]:
     this token?" is a question worth answering from an audit log; "what was
     it?" is not.
 
+    Redaction applies at **every nesting depth**: objects inside objects and
+    objects inside arrays are walked with the same rule, so
+    ``{"ctx": {"email": ...}}`` and ``{"roles": [{"token": ...}]}`` lose the
+    nested values too.  Everything below a sensitive key is replaced as a
+    whole.
+
     Args:
         claims: The authenticated principal's claims.
 
@@ -88,7 +94,16 @@ def redact_claims(claims: Mapping[str, object]) -> dict[str, object]:
         A new dict with the same keys, sensitive values replaced.
 
     """
-    return {k: (REDACTED if _DEFAULT_CLAIM_REDACT_RE.search(k) else v) for k, v in claims.items()}
+    return {k: (REDACTED if _DEFAULT_CLAIM_REDACT_RE.search(k) else _redact_nested(v)) for k, v in claims.items()}
+
+
+def _redact_nested(value: object) -> object:
+    """Apply :func:`redact_claims` to the objects nested inside a claim value."""
+    if isinstance(value, Mapping):
+        return redact_claims(value)
+    if isinstance(value, (list, tuple)):
+        return [_redact_nested(item) for item in value]
+    return value
 
 
 def no_redaction(claims: Mapping[str, object]) -> dict[str, object]:
